@@ -223,7 +223,7 @@ def broadcast(rng, tier):
                 for oname, f in (('Inv', lambda z: z.Inv()), ('Log', lambda z: z.Log()), ('matrix', lambda z: z.matrix())):
                     r = f(X); evals += 1
                     rt = r.tensor() if hasattr(r, 'ltype') else r
-                    msz = 4 if gname in ('SE3', 'Sim3') else 3
+                    msz = 3 if gname == 'SO3' else 4          # LieType.matrix: 'To 4x4 matrix' for every type but SO3 (RxSO3 included)
                     want = tuple(s1) + ((msz, msz) if oname == 'matrix' else (X.shape[-1],) if oname == 'Inv' else (X.shape[-1] - 1,))
                     if tuple(rt.shape) != want: fails.append(dict(clause='unary_shape', signature=f'{gname}.{oname} {s1}', got=list(rt.shape), want=list(want)))
             if len(fails) > 10: break
